@@ -92,6 +92,42 @@ pub fn run(r: &mut Report) {
         }
         r.case("canonical-form-parses-back", json!({"documents": n, "texts": ts.len()}), "every accepted document's canonical bytes parse back to an equal value", format!("{:?}", bad), bad.is_empty());
     }
+    // integer members at the extremes of their types (`definedInMaterial` is an unsigned machine word, `return-value` a signed
+    // 32-bit number): the canonical form carries the same digits and parses back to an equal value, bare and inside a statement
+    {
+        let mut bad: Vec<String> = vec![]; let mut n = 0;
+        let mut docs: Vec<(String, &str, Value)> = vec![];
+        for v in [0u64, 1, (1 << 31) - 1, 1 << 31, (1u64 << 32) - 1, 1 << 32, 1 << 53, (1u64 << 63) - 1, 1u64 << 63, (1u64 << 63) + 1, u64::MAX - 1, u64::MAX] {
+            docs.push((v.to_string(), "https://slsa.dev/provenance/v0.1", json!({"builder": {"id": "b"}, "recipe": {"type": "t", "definedInMaterial": v}, "materials": [{"uri": "u"}]})));
+        }
+        for v in [i32::MIN as i64, -256, -1, 0, 1, 255, i32::MAX as i64] {
+            docs.push((v.to_string(), "https://in-toto.io/Link/v0.2", json!({"byproducts": {"return-value": v, "stderr": "", "stdout": ""}, "command": [], "env": null, "materials": {}, "name": "n"})));
+        }
+        for (digits, ptype, pd) in &docs {
+            n += 2;
+            match serde_json::from_str::<PredicateWrapper>(&pd.to_string()) {
+                Ok(p) => {
+                    let bytes = no_panic(|| p.clone().into_trait().to_bytes());
+                    let text = match &bytes { Ok(Ok(b)) => String::from_utf8_lossy(b).to_string(), _ => String::new() };
+                    let back: Option<PredicateWrapper> = serde_json::from_str(&text).ok();
+                    if (back.as_ref() != Some(&p) || !text.contains(&format!(":{}", digits))) && bad.len() < 6 { bad.push(format!("predicate with integer {}: canonical form {:?} (parses back equal: {})", digits, text.chars().take(140).collect::<String>(), back.as_ref() == Some(&p))); }
+                }
+                Err(e) => { if bad.len() < 6 { bad.push(format!("predicate with integer {} rejected: {}", digits, e)); } }
+            }
+            let st = json!({"_type": "https://in-toto.io/Statement/v0.1", "subject": {"s": {"sha256": "00"}}, "predicateType": ptype, "predicate": pd});
+            match serde_json::from_str::<StatementWrapper>(&st.to_string()) {
+                Ok(w) => {
+                    let w2: StatementWrapper = serde_json::from_str(&st.to_string()).unwrap();
+                    let bytes = no_panic(|| w2.into_trait().to_bytes());
+                    let text = match &bytes { Ok(Ok(b)) => String::from_utf8_lossy(b).to_string(), _ => String::new() };
+                    let back: Option<StatementWrapper> = serde_json::from_str(&text).ok();
+                    if (back.as_ref() != Some(&w) || !text.contains(&format!(":{}", digits))) && bad.len() < 6 { bad.push(format!("statement with integer {}: canonical form {:?} (parses back equal: {})", digits, text.chars().take(140).collect::<String>(), back.as_ref() == Some(&w))); }
+                }
+                Err(e) => { if bad.len() < 6 { bad.push(format!("statement with integer {} rejected: {}", digits, e)); } }
+            }
+        }
+        r.case("integer-members-at-their-extremes", json!({"documents": n}), "accepted, written with the same digits, parsed back equal", format!("{:?}", bad), bad.is_empty());
+    }
     // a statement's declared `_type` and its shape may disagree: whatever the parser then does (reject, or go by one of them), the value
     // it hands back reports ONE version - the wrapper variant, `judge_from_value` and the value's own `version()` all name the same one
     {
